@@ -4,4 +4,5 @@ package all
 import (
 	_ "github.com/ozontech/file.d/zz_verifharness/h1pipe"
 	_ "github.com/ozontech/file.d/zz_verifharness/h2batcher"
+	_ "github.com/ozontech/file.d/zz_verifharness/h3offsets"
 )
